@@ -502,7 +502,14 @@ def standard_check(mod, tier, seed, replay=None):
     # 4. model + oracle
     disagree, violate, details, errors = ([], [], {}, [])
     if ok:
-        pairs = list(zip(lines, obs))
+        # observations beyond the size budget (hugely ambiguous grammars) are cut and counted, not evaluated
+        maxobs = getattr(mod, "MAXOBS", 300000)
+        for i, o in enumerate(obs):
+            if len(o) > maxobs:
+                BUDGET_CUT.append(i)
+                obs[i] = '(OT "CutBySize" [])'
+        keep = [i for i in range(len(obs)) if obs[i] != '(OT "CutBySize" [])']
+        pairs = [(lines[i], obs[i]) for i in keep]
         if hasattr(mod, "FAST") and os.environ.get("VERIF_MODEL", "ocaml") == "ocaml":
             disagree, violate, details, errors = run_model_fast(pid, mod.FAST, pairs)
             k = getattr(mod, "CROSSCHECK", {}).get(tier, 0)
@@ -516,6 +523,9 @@ def standard_check(mod, tier, seed, replay=None):
         else:
             disagree, violate, details, errors = run_model(pid, mod.IMPORTS, mod.HARNESS, pairs,
                                                            shard=getattr(mod, "SHARD", None))
+        disagree = [keep[i] for i in disagree]
+        violate = [keep[i] for i in violate]
+        details = {keep[i]: v for i, v in details.items()}
         for e in errors:
             problems.append({"kind": "model-evaluation", "log": e["error"]})
         log("%s: model evaluation %.1fs" % (pid, time.time() - t1))
